@@ -9,13 +9,15 @@
 //!   t2c <target>                            -> <compact>                       target_to_compact
 //!   c2d <compact>                           -> <difficulty hex>                compact_to_difficulty
 //!   d2c <difficulty>                        -> <compact> | fail                difficulty_to_compact
-//!   pow <compact> <digest>                  -> 0|1     EaglesongPowEngine::verify (digest = eaglesong of
-//!                                                      the real header's pow message, computed here)
+//!   pow <compact> <digest> <nonce> <number> -> 0|1     EaglesongPowEngine::verify (digest = eaglesong of
+//!                                                      the real header's pow message, computed here; the
+//!                                                      model ignores nonce and number)
 //!   enf <full_value>                        -> <number> <index> <length> wf=0|1 gen=0|1
 //!   enfnew <number> <index> <length>        -> <full_value>                    new_unchecked
 //!   succ <self> <pred>                      -> 0|1                             is_successor_of
 //!   reward <start> <len> <base> <rem> <n>   -> <shannons> | fail               EpochExt::block_reward
 //!   sec <start> <len> <epoch_issuance> <n>  -> <shannons> | fail               secondary_block_issuance
+//!   nwf <number> <start> <len> <n>          -> <full_value>                    EpochExt::number_with_fraction
 //!   prim <initial> <halving> <epoch_number> -> <shannons> | fail               Consensus::primary_epoch_reward
 //!   next <T> <initial> <halving> <ortN> <ortD> <number> <base> <rem> <prevHR> <start> <len>
 //!        <hdr_number> <hdr_compact> <uncles> <dur_ms>
@@ -584,7 +586,7 @@ fn op_pow(out: &mut Out, compact: u32, nonce: u128, number: u64) {
     let header = HeaderBuilder::default().number(number).epoch(EpochNumberWithFraction::new(1, 0, 1000)).compact_target(compact).nonce(nonce).build().data();
     let digest = digest_of(&header);
     let ok = EaglesongPowEngine.verify(&header);
-    out.op(&format!("pow {:#x} {}", compact, hx(&digest)), if ok { "1" } else { "0" });
+    out.op(&format!("pow {:#x} {} {:#x} {}", compact, hx(&digest), nonce, number), if ok { "1" } else { "0" });
     out.count(if ok { "pow-accept" } else { "pow-reject" });
     let (t, o) = compact_to_target(compact);
     let want = !t.is_zero() && !o && digest <= t;
@@ -652,6 +654,24 @@ fn op_sec(out: &mut Out, start: u64, len: u64, sec: u64, n: u64) -> Option<u64> 
     r
 }
 
+fn op_nwf(out: &mut Out, number: u64, start: u64, len: u64, n: u64) {
+    let e = EpochExt::new_builder().number(number).start_number(start).length(len).build();
+    let r = quiet(|| e.number_with_fraction(n).full_value());
+    out.op(&format!("nwf {number} {start} {len} {n}"), &r.map(|v| v.to_string()).unwrap_or("fail".into()));
+    out.count("nwf");
+    // gap-free: the position after this one, as the same epoch reports it, is its successor
+    if let Some(v) = r {
+        if n + 1 < start + len {
+            if let Some(v2) = quiet(|| e.number_with_fraction(n + 1)) {
+                let cur = EpochNumberWithFraction::from_full_value_unchecked(v);
+                if !v2.is_successor_of(cur) || !v2.is_well_formed() {
+                    out.oracle_fail("epoch-ext-positions-not-consecutive", &format!("number={number} start={start} len={len} n={n}"));
+                }
+            }
+        }
+    }
+}
+
 fn op_prim(out: &mut Out, ctx: &mut Ctx, initial: u64, halving: u64, n: u64) -> Option<u64> {
     ctx.consensus.initial_primary_epoch_reward = Capacity::shannons(initial);
     ctx.consensus.primary_epoch_reward_halving_interval = halving;
@@ -669,7 +689,11 @@ fn epoch_sums(out: &mut Out, start: u64, len: u64, primary: u64, sec: u64) {
     let mut sum_s: u128 = 0;
     let mut ok = true;
     // also the two blocks just outside the epoch get the base amount (no extra shannon)
-    for n in start..start + len {
+    for i in 0..len {
+        let Some(n) = start.checked_add(i) else {
+            ok = false;
+            break;
+        };
         match (op_reward(out, start, len, base, rem, n), op_sec(out, start, len, sec, n)) {
             (Some(p), Some(s)) => {
                 sum_p += p as u128;
@@ -700,7 +724,8 @@ fn exec_line(out: &mut Out, ctx: &mut Ctx, line: &str) {
         "t2c" => op_t2c(out, &parse_u256(t[1])),
         "c2d" => op_c2d(out, parse_u64(t[1]) as u32),
         "d2c" => op_d2c(out, &parse_u256(t[1])),
-        "pow" => panic!("pow lines cannot be replayed literally (the digest is derived from a header); use seeds"),
+        // the digest token is recomputed from the real header (compact, nonce, number)
+        "pow" => op_pow(out, parse_u64(t[1]) as u32, u128::from_str_radix(t[3].trim_start_matches("0x"), 16).expect("nonce"), parse_u64(t[4])),
         "enf" => op_enf(out, parse_u64(t[1])),
         "enfnew" => op_enfnew(out, parse_u64(t[1]), parse_u64(t[2]), parse_u64(t[3])),
         "succ" => op_succ(out, parse_u64(t[1]), parse_u64(t[2])),
@@ -710,6 +735,7 @@ fn exec_line(out: &mut Out, ctx: &mut Ctx, line: &str) {
         "sec" => {
             op_sec(out, parse_u64(t[1]), parse_u64(t[2]), parse_u64(t[3]), parse_u64(t[4]));
         }
+        "nwf" => op_nwf(out, parse_u64(t[1]), parse_u64(t[2]), parse_u64(t[3]), parse_u64(t[4])),
         "prim" => {
             op_prim(out, ctx, parse_u64(t[1]), parse_u64(t[2]), parse_u64(t[3]));
         }
@@ -763,7 +789,7 @@ pub fn run(opts: &Opts) {
     }
 
     let mut rng = Rng::new(opts.seed);
-    let k = opts.scale * if opts.thorough() { 20 } else { 1 };
+    let k = opts.scale * if opts.thorough() { 150 } else { 8 };
 
     out.begin_case("consts");
     op_consts(&mut out, &ctx);
@@ -837,6 +863,42 @@ pub fn run(opts: &Opts) {
         }
     }
 
+    // oracle-only sweep of the compact space (no model lines): every exponent, mantissas on a stride
+    // plus both ends; checks the decode/encode laws on the implementation alone
+    {
+        let stride: u32 = if opts.thorough() { 251 } else { 65_521 };
+        let mut checked = 0u64;
+        for e in 0..=255u32 {
+            let mut ms: Vec<u32> = (0..0x100_0000u32).step_by(stride as usize).collect();
+            ms.extend(0..64u32);
+            ms.extend(0xff_ffc0..=0xff_ffffu32);
+            ms.extend([0x7f_ffff, 0x80_0000, 0x80_0001, 0xffff, 0x1_0000, 0xff, 0x100]);
+            for m in ms {
+                let c = (e << 24) | m;
+                let (t, o) = compact_to_target(c);
+                checked += 1;
+                // the flag is exactly "mantissa != 0 and exponent > 32"; unflagged targets are exact
+                if o != (m != 0 && e > 32) {
+                    out.oracle_fail("compact-overflow-flag", &format!("compact {:#x}", c));
+                }
+                if !o && e <= 32 {
+                    let exact = if e <= 3 { big64((m >> (8 * (3 - e))) as u64) } else { big64(m as u64) << (8 * (e - 3)) };
+                    if big(&t) != exact {
+                        out.oracle_fail("compact-to-target-value", &format!("compact {:#x} -> {}", c, hx(&t)));
+                    }
+                }
+                if !o && !t.is_zero() {
+                    let c2 = target_to_compact(t.clone());
+                    let (t2, o2) = compact_to_target(c2);
+                    if o2 || t2 != t {
+                        out.oracle_fail("compact-roundtrip", &format!("compact {:#x} target {} recompact {:#x}", c, hx(&t), c2));
+                    }
+                }
+            }
+        }
+        out.extra.insert("compact_sweep_checked".into(), checked.into());
+    }
+
     // --- proof of work ---------------------------------------------------------------------
     out.begin_case("pow");
     for j in 0..600 * k {
@@ -888,6 +950,23 @@ pub fn run(opts: &Opts) {
         if rng.chance(1, 8) {
             op_succ(&mut out, rng.next(), rng.next());
         }
+    }
+    // EpochExt::number_with_fraction on in-range positions (debug builds assert the range)
+    out.begin_case("number-with-fraction");
+    for _ in 0..1500 * k {
+        let len = match rng.below(5) {
+            0 => 1,
+            1 => 65_535,
+            _ => rng.range(1, 2000),
+        };
+        let number = if rng.chance(1, 5) { (1 << 24) - 1 - rng.below(2) } else { rng.below(1 << 24) };
+        let start = if rng.chance(1, 10) { u64::MAX - len - rng.below(2) } else { rng.range(0, 100_000_000) };
+        let n = match rng.below(4) {
+            0 => start,
+            1 => start + len - 1,
+            _ => start + rng.below(len),
+        };
+        op_nwf(&mut out, number, start, len, n);
     }
     // a walk along a chain of epochs: every position has exactly one successor, no gaps
     out.begin_case("epoch-walk");
@@ -973,10 +1052,10 @@ pub fn run(opts: &Opts) {
     }
     // whole epochs: every length in thorough, a boundary-biased sample in quick
     let lens: Vec<u64> = if opts.thorough() {
-        (1..=2000u64).chain([4095, 4096, 65535]).collect()
+        (1..=2000u64).chain([4095, 4096, 65534, 65535]).collect()
     } else {
         let mut v: Vec<u64> = vec![1, 2, 3, 299, 300, 301, 999, 1000, 1001, 1799, 1800];
-        for _ in 0..6 * opts.scale {
+        for _ in 0..40 * opts.scale {
             v.push(rng.range(1, 1800));
         }
         v
@@ -996,7 +1075,7 @@ pub fn run(opts: &Opts) {
             2 => len * rng.range(0, 1 << 30),
             _ => rng.range(0, 1 << 50),
         };
-        let start = if rng.chance(1, 10) { u64::MAX - len - rng.below(3) } else { rng.range(0, 100_000_000) };
+        let start = if rng.chance(1, 10) { u64::MAX - len - rng.below(3) + 1 } else { rng.range(0, 100_000_000) };
         epoch_sums(&mut out, start, len, primary, sec);
     }
 
@@ -1055,6 +1134,15 @@ pub fn run(opts: &Opts) {
             let c = &ctx.consensus;
             match quiet(|| c.next_epoch_ext(&header, &mock).map(|n| n.epoch())) {
                 Some(Some(e)) => {
+                    // epoch fields across the boundary: last block of this epoch, first of the next
+                    if number + 1 < (1 << 24) {
+                        let last = EpochNumberWithFraction::new(number, len - 1, len);
+                        let first = e.number_with_fraction(e.start_number());
+                        if !first.is_well_formed() || !first.is_successor_of(last) {
+                            out.oracle_fail("epoch-boundary-not-consecutive", &format!("{:#x} after {:#x}", first.full_value(), last.full_value()));
+                        }
+                        op_nwf(&mut out, e.number(), e.start_number(), e.length(), e.start_number());
+                    }
                     number = e.number();
                     r = e.primary_reward().as_u64();
                     len = e.length();
